@@ -99,6 +99,8 @@ fn gen_val(rng: &mut Rng, t: Ty) -> V {
         Ty::VarInt => V::I(boundary_i(rng, i128::from(i32::MIN), i128::from(i32::MAX))),
         Ty::Str => V::B(gen_str(rng, 98301)),
         Ty::Text => {
+            // plain texts; among them texts that are themselves complete JSON values (numbers, literals, strings, arrays) but not objects
+            if rng.chance(1, 5) { return V::B(rng.pick(&["404", "2024", "true", "false", "null", "\"bye\"", "[1,2]", "-1.5e3", "0", "[]", " 7"]).as_bytes().to_vec()); }
             let mut b = gen_str(rng, 40000);
             if b.first() == Some(&b'{') { b[0] = b'['; }
             V::B(b)
